@@ -139,7 +139,7 @@ def run(ctx):
             if kind == "affine":
                 T = AffineTransform(xp=xp, dtype=dt)
                 data = xp.asarray(x if n > 1 else np.vstack([x, x + 0.5 * w]), dtype=dt)
-                if rep % 4 == 2 and width == "float64":
+                if width == "float64" and ctx.rng.random() < 0.5:
                     # a parameter in tiny physical units (a strain amplitude, a mass ratio known to nine digits): one coordinate's
                     # spread is 1e-9 ... 1e-11 of the others'
                     tiny = 10.0 ** -ctx.rng.choice([9, 10, 11])
@@ -147,6 +147,7 @@ def run(ctx):
                     dnp[:, 0] = dnp[:, 0] * tiny
                     data = xp.asarray(dnp, dtype=dt)
                     case = dict(case, first_coordinate_scaled_by=tiny)
+                    ctx.extra["affine_fits_with_a_tiny_scale_coordinate"] = ctx.extra.get("affine_fits_with_a_tiny_scale_coordinate", 0) + 1
                 if rep % 2 == 1:
                     # the same object was fitted before on data of another spread: what follows is about the LAST fit
                     prev = np.asarray(nsutil.to_list(data), float) * 7.5 + 3.0
@@ -242,6 +243,35 @@ def run(ctx):
             tie_set(str(e), False, f"no translated definition {e} to compare with (see the translate:* obligations)")
         except Exception as e:
             ctx.violation(f"raises:{kind}:{nsname}:{width}:{type(e).__name__}", f"{kind} transform raised {e!r}", case)
+    # ---------------- affine fit when one parameter lives on a tiny scale (strain amplitudes, a ratio known to nine digits): the reported
+    # log-Jacobian is the log|det| of the map that forward() really applies, measured from the map's own slope between two rows
+    for nsname in NS:
+        xp_ = NS[nsname]
+        dt_ = nsutil.native_dtype(nsname, "float64")
+        for tiny in (1e-6, 1e-9, 1e-10, 1e-12):
+            d_ = ctx.rng.choice([1, 2, 3])
+            dnp = np.array([[ctx.rng.gauss(0.3, 1.7) for _ in range(d_)] for _ in range(12)], float)
+            dnp[:, 0] = 4e-7 + dnp[:, 0] * tiny
+            case = {"class": "affine", "ns": nsname, "dims": d_, "spread_of_first_coordinate": tiny, "dtype": "float64"}
+            ctx.count(("affine-tiny", nsname, tiny, d_), True, kind="affine/tiny-scale-coordinate")
+            try:
+                T = AffineTransform(xp=xp_, dtype=dt_)
+                T.fit(xp_.asarray(dnp, dtype=dt_))
+                y_, lj_ = T.forward(xp_.asarray(dnp, dtype=dt_))
+                xb_, ljb_ = T.inverse(y_)
+                yv_ = np.asarray(nsutil.to_list(y_), float)
+                ljv_ = np.asarray(nsutil.to_list(lj_), float).reshape(-1)
+                i1 = int(np.argmax(np.min(np.abs(dnp - dnp[0]), axis=1)))
+                slope = (yv_[i1] - yv_[0]) / (dnp[i1] - dnp[0])
+                want_ = float(np.sum(np.log(np.abs(slope))))
+                if not close(ljv_[0], want_, 1e-6, 1e-6):
+                    ctx.violation("logj-vs-slope:affine:tiny-scale", f"forward log-Jacobian {ljv_[0]} but the slope of forward() gives log|det| = {want_}", case)
+                if not close(np.asarray(nsutil.to_list(ljb_), float).reshape(-1), -ljv_, 1e-9, 1e-9):
+                    ctx.violation("inverse-logj:affine:tiny-scale", "inverse log-Jacobian != - forward", case)
+                if not close(np.asarray(nsutil.to_list(xb_), float), dnp, 1e-9, 1e-9 * tiny):
+                    ctx.violation("roundtrip:affine:tiny-scale", "inverse(forward(x)) != x", case)
+            except Exception as e:
+                ctx.violation(f"raises:affine:tiny-scale:{type(e).__name__}", f"AffineTransform on a coordinate of spread {tiny} raised {e!r}", case)
     # ---------------- composite: every on/off combination
     import itertools
     for per, bnd, bt, aff in itertools.product([False, True], [False, True], ["logit", "probit"], [False, True]):
